@@ -24,9 +24,15 @@ const prop = "C02"
 type Case struct {
 	Cfg Cfg      `json:"cfg"`
 	Ops []string `json:"ops"`
+	// timing cases: a timeline on the injected clock, or the name of a real-timer scenario
+	Clock    *ClockScenario `json:"clock,omitempty"`
+	Timeline []clockEvent   `json:"timeline,omitempty"`
+	Timing   string         `json:"timing,omitempty"`
 }
 
 type caseResult struct {
+	countOnly  bool // a property-oracle-only case (timing): nothing to compare with the model
+	notes      []string
 	envTrouble bool
 	envNotes   []string
 	name       string
@@ -35,10 +41,13 @@ type caseResult struct {
 	dist       map[string]int
 	nontrivial bool
 	skipped    bool
+	resumed    bool // skipped because it ran before the server process was restarted
 	err        error
 }
 
 type worker struct {
+	progress  func(kind string, v any) // streams what the worker is doing to the parent process
+	skipLeft  int                      // cases of the current job that were already run before a restart
 	model     *model
 	broken    bool // a hang was observed: what follows on these instances would be unreliable
 	id        int
@@ -127,6 +136,10 @@ func (w *worker) runCase(cfg Cfg, name string, next func(*view) (string, bool)) 
 	from := in.sessBase
 	cs := &Case{Cfg: cfg}
 	orc := &caseOracle{ctx: w.ctx, cs: cs, name: name, dist: res.dist}
+	if w.progress != nil {
+		w.progress("begin", wireBegin{Name: name, Cfg: cfg})
+		orc.onViol = func(v corr.Violation) { w.progress("viol", v) }
+	}
 	res.ops = append(res.ops, cfg.initOp())
 	res.impl = append(res.impl, "ok")
 	v := &view{}
@@ -172,6 +185,9 @@ func (w *worker) runCase(cfg Cfg, name string, next func(*view) (string, bool)) 
 			break
 		}
 		cs.Ops = append(cs.Ops, op)
+		if w.progress != nil {
+			w.progress("op", op)
+		}
 		if f[1] == "preq" {
 			r, err := parseReq(f[2:])
 			if err != nil {
@@ -376,6 +392,10 @@ func sameLines(a, b []string) bool {
 // runChecked runs a case; if the implementation's answers differ from the model's it replays the
 // same operations once and keeps the replay when that one agrees.
 func (w *worker) runChecked(cfg Cfg, name string, next func(*view) (string, bool)) caseResult {
+	if w.skipLeft > 0 {
+		w.skipLeft--
+		return caseResult{name: name, dist: map[string]int{}, skipped: true, resumed: true}
+	}
 	r := w.runCase(cfg, name, next)
 	if r.err != nil || r.skipped || w.broken || w.model == nil {
 		return r
@@ -425,6 +445,9 @@ func emit(c *corr.Ctx, r caseResult) {
 	for k, n := range r.dist {
 		c.DistN(k, n)
 	}
+	for _, n := range r.notes {
+		c.Note(n)
+	}
 	for _, n := range r.envNotes {
 		if envNoteCount < 20 {
 			c.Note("environment? " + n)
@@ -437,6 +460,9 @@ func emit(c *corr.Ctx, r caseResult) {
 		c.Dist("skipped:operating-system-refused-a-socket-operation")
 		return
 	}
+	if r.resumed {
+		return
+	}
 	if r.skipped {
 		if r.dist["skipped-after-hang"] == 0 {
 			c.Dist("exhaustive:skipped(no session to name yet)")
@@ -445,6 +471,10 @@ func emit(c *corr.Ctx, r caseResult) {
 	}
 	for _, v := range r.viol {
 		c.Violate(v)
+	}
+	if r.countOnly || len(r.ops) == 0 {
+		c.CountOnly(r.name, r.nontrivial)
+		return
 	}
 	c.Add(corr.Case{Name: r.name, Ops: r.ops, Impl: r.impl, Nontrivial: r.nontrivial})
 }
@@ -479,39 +509,291 @@ func configs(c *corr.Ctx, rng *rand.Rand) []Cfg {
 // job is a unit of work for a worker: it produces case results in a deterministic order.
 type job func(w *worker, out func(caseResult))
 
-func runJobs(c *corr.Ctx, nWorkers int, jobs []job) {
-	chans := make([]chan caseResult, nWorkers)
-	var wg sync.WaitGroup
-	seeds := make([]uint64, nWorkers)
-	for i := range seeds {
-		seeds[i] = c.Rng.Uint64()
+// ---------------------------------------------------------------------------------------------
+// The real server runs in child processes (re-exec of this binary with VERIF_SESS_CHILD set), one
+// per worker.  A child streams what it does — every case it begins, every operation before it is
+// executed, every violation as soon as the oracle sees it, every finished case — so that a panic
+// of the server is attributed to the exact request sequence (violation `sess-server-panic`, the
+// sequence is the replay) and the run goes on in a fresh child.
+
+const childEnv = "VERIF_SESS_CHILD"
+
+type wireBegin struct {
+	Name string `json:"name"`
+	Cfg  Cfg    `json:"cfg"`
+	Case *Case  `json:"case,omitempty"` // timing cases: the whole replay input
+}
+
+type wireResult struct {
+	Name       string           `json:"name"`
+	Ops        []string         `json:"ops,omitempty"`
+	Impl       []string         `json:"impl,omitempty"`
+	Viol       []corr.Violation `json:"viol,omitempty"`
+	Dist       map[string]int   `json:"dist,omitempty"`
+	Notes      []string         `json:"notes,omitempty"`
+	EnvNotes   []string         `json:"env_notes,omitempty"`
+	Err        string           `json:"err,omitempty"`
+	Nontrivial bool             `json:"nontrivial,omitempty"`
+	Skipped    bool             `json:"skipped,omitempty"`
+	Resumed    bool             `json:"resumed,omitempty"`
+	CountOnly  bool             `json:"count_only,omitempty"`
+	EnvTrouble bool             `json:"env_trouble,omitempty"`
+}
+
+type wireLine struct {
+	T string          `json:"t"`
+	V json.RawMessage `json:"v,omitempty"`
+}
+
+func toWire(r caseResult) wireResult {
+	w := wireResult{Name: r.name, Ops: r.ops, Impl: r.impl, Viol: r.viol, Dist: r.dist, Notes: r.notes, EnvNotes: r.envNotes,
+		Nontrivial: r.nontrivial, Skipped: r.skipped, Resumed: r.resumed, CountOnly: r.countOnly, EnvTrouble: r.envTrouble}
+	if r.err != nil {
+		w.Err = r.err.Error()
 	}
-	for i := 0; i < nWorkers; i++ {
+	return w
+}
+
+func fromWire(w wireResult) caseResult {
+	r := caseResult{name: w.Name, ops: w.Ops, impl: w.Impl, viol: w.Viol, dist: w.Dist, notes: w.Notes, envNotes: w.EnvNotes,
+		nontrivial: w.Nontrivial, skipped: w.Skipped, resumed: w.Resumed, countOnly: w.CountOnly, envTrouble: w.EnvTrouble}
+	if r.dist == nil {
+		r.dist = map[string]int{}
+	}
+	if w.Err != "" {
+		r.err = fmt.Errorf("%s", w.Err)
+	}
+	return r
+}
+
+func workerCount() int {
+	n := runtime.NumCPU() / 2
+	if n < 2 {
+		n = 2
+	}
+	if n > 8 {
+		n = 8
+	}
+	return n
+}
+
+// runChild: worker `i` of `n`, starting at job `startJob` (skipping its first `skip` cases).
+func runChild(c *corr.Ctx, spec string) {
+	var i, n, startJob, skip int
+	if _, err := fmt.Sscanf(spec, "%d/%d/%d/%d", &i, &n, &startJob, &skip); err != nil || n <= 0 {
+		fmt.Fprintln(os.Stderr, "bad "+childEnv+": "+spec)
+		os.Exit(2)
+	}
+	setPortSlice(i)
+	jobs := buildJobs(c)
+	seeds := make([]uint64, n)
+	for k := range seeds {
+		seeds[k] = c.Rng.Uint64()
+	}
+	out := bufio.NewWriterSize(os.Stdout, 1<<16)
+	var mu sync.Mutex
+	send := func(kind string, v any) {
+		b, err := json.Marshal(v)
+		if err != nil {
+			b = []byte(`"unencodable"`)
+		}
+		l, _ := json.Marshal(wireLine{T: kind, V: b})
+		mu.Lock()
+		out.Write(l)
+		out.WriteByte('\n')
+		out.Flush()
+		mu.Unlock()
+	}
+	w := &worker{id: i, ctx: c, instances: map[Cfg]*instance{}, model: startModel(c.Oracle), progress: send}
+	for j := i; j < len(jobs); j += n {
+		if j < startJob {
+			continue
+		}
+		w.rng = rand.New(rand.NewPCG(seeds[i], uint64(j)))
+		w.skipLeft = 0
+		if j == startJob {
+			w.skipLeft = skip
+		}
+		send("job", j)
+		jobs[j](w, func(r caseResult) { send("end", toWire(r)) })
+	}
+	w.closeAll()
+	w.model.stop()
+	send("done", nil)
+}
+
+// tailBuffer keeps the end of what a child wrote to stderr (the panic message is there).
+type tailBuffer struct {
+	mu  sync.Mutex
+	buf []byte
+}
+
+func (t *tailBuffer) Write(p []byte) (int, error) {
+	t.mu.Lock()
+	t.buf = append(t.buf, p...)
+	if len(t.buf) > 1<<16 {
+		t.buf = t.buf[len(t.buf)-(1<<16):]
+	}
+	t.mu.Unlock()
+	return len(p), nil
+}
+
+func (t *tailBuffer) panicText() string {
+	t.mu.Lock()
+	s := string(t.buf)
+	t.mu.Unlock()
+	for _, marker := range []string{"panic:", "fatal error:"} {
+		if k := strings.Index(s, marker); k >= 0 {
+			s = s[k:]
+			break
+		}
+	}
+	if len(s) > 1800 {
+		s = s[:1800] + " …"
+	}
+	return strings.TrimSpace(s)
+}
+
+// runParent starts the children, merges their results deterministically (round-robin over the
+// workers) and turns the death of a child into a violation with the sequence it was executing.
+func runParent(c *corr.Ctx) {
+	n := workerCount()
+	replayFile := ""
+	if c.Replay != nil {
+		n = 1
+		dir := c.WorkDir
+		if dir == "" {
+			dir = os.TempDir()
+		}
+		replayFile = filepath.Join(dir, fmt.Sprintf("sess-replay-%d.json", os.Getpid()))
+		if err := os.WriteFile(replayFile, c.Replay, 0o644); err != nil {
+			c.Note("replay: " + err.Error())
+			return
+		}
+		defer os.Remove(replayFile)
+	}
+	self, err := os.Executable()
+	if err != nil {
+		self = os.Args[0]
+	}
+	chans := make([]chan caseResult, n)
+	var wg sync.WaitGroup
+	var noteMu sync.Mutex
+	var notes []string
+	for i := 0; i < n; i++ {
 		chans[i] = make(chan caseResult, 256)
 		wg.Add(1)
 		go func(i int) {
 			defer wg.Done()
 			defer close(chans[i])
-			w := &worker{id: i, rng: rand.New(rand.NewPCG(seeds[i], uint64(i))), ctx: c, instances: map[Cfg]*instance{},
-				model: startModel(c.Oracle)}
-			defer w.model.stop()
-			defer w.closeAll()
-			for j := i; j < len(jobs); j += nWorkers {
-				jobs[j](w, func(r caseResult) { chans[i] <- r })
+			startJob, skip, crashes := 0, 0, 0
+			for {
+				args := []string{"-seed", strconv.FormatUint(c.Seed, 10), "-tier", c.Tier, "-oracle", c.Oracle, "-out", os.DevNull}
+				if c.WorkDir != "" {
+					args = append(args, "-work", c.WorkDir)
+				}
+				if replayFile != "" {
+					args = append(args, "-replay", replayFile)
+				}
+				cmd := exec.Command(self, args...)
+				cmd.Env = append(os.Environ(), fmt.Sprintf("%s=%d/%d/%d/%d", childEnv, i, n, startJob, skip))
+				stderr := &tailBuffer{}
+				cmd.Stderr = stderr
+				pipe, err := cmd.StdoutPipe()
+				if err == nil {
+					err = cmd.Start()
+				}
+				if err != nil {
+					noteMu.Lock()
+					notes = append(notes, fmt.Sprintf("worker %d: cannot start the server process: %v", i, err))
+					noteMu.Unlock()
+					return
+				}
+				sc := bufio.NewScanner(pipe)
+				sc.Buffer(make([]byte, 1<<20), 1<<28)
+				done := false
+				curJob, endsInJob := startJob, 0
+				var cur *Case
+				curName, lastName := "", ""
+				var lastCase *Case
+				var streamed []corr.Violation
+				for sc.Scan() {
+					var l wireLine
+					if json.Unmarshal(sc.Bytes(), &l) != nil {
+						continue
+					}
+					switch l.T {
+					case "job":
+						json.Unmarshal(l.V, &curJob) //nolint:errcheck
+						endsInJob = 0
+					case "begin":
+						var b wireBegin
+						json.Unmarshal(l.V, &b) //nolint:errcheck
+						cur, curName, streamed = &Case{Cfg: b.Cfg}, b.Name, nil
+						if b.Case != nil {
+							cur = b.Case
+						}
+					case "op":
+						var op string
+						json.Unmarshal(l.V, &op) //nolint:errcheck
+						if cur != nil {
+							cur.Ops = append(cur.Ops, op)
+						}
+					case "viol":
+						var v corr.Violation
+						if json.Unmarshal(l.V, &v) == nil {
+							streamed = append(streamed, v)
+						}
+					case "end":
+						var wr wireResult
+						if json.Unmarshal(l.V, &wr) == nil {
+							chans[i] <- fromWire(wr)
+						}
+						endsInJob++
+						if cur != nil {
+							lastCase, lastName = cur, curName
+						}
+						cur, streamed = nil, nil
+					case "done":
+						done = true
+					}
+				}
+				werr := cmd.Wait()
+				if done {
+					return
+				}
+				// the server process died
+				crashes++
+				where, cs, during := curName, cur, "while handling the last operation of this sequence"
+				if cs == nil {
+					where, cs, during = lastName, lastCase, "after this sequence (while the harness was cleaning up or starting the next case)"
+				}
+				r := caseResult{name: where + " [server process died]", dist: map[string]int{"server-process-died": 1}, countOnly: true, nontrivial: true}
+				r.viol = append(r.viol, streamed...)
+				r.viol = append(r.viol, corr.Violation{Property: prop, Clause: "no sequence crashes or hangs the server",
+					Key: "sess-server-panic", Where: where, Input: cs,
+					Detail: fmt.Sprintf("the process running the server died (%v) %s: %s", werr, during, stderr.panicText())})
+				chans[i] <- r
+				if crashes > 5 {
+					noteMu.Lock()
+					notes = append(notes, fmt.Sprintf("worker %d: the server process died %d times; its remaining jobs were not run", i, crashes))
+					noteMu.Unlock()
+					return
+				}
+				startJob, skip = curJob, endsInJob+1
 			}
 		}(i)
 	}
-	// deterministic merge: round-robin over the workers
-	open := nWorkers
-	done := make([]bool, nWorkers)
+	open := n
+	finished := make([]bool, n)
 	for open > 0 {
-		for i := 0; i < nWorkers; i++ {
-			if done[i] {
+		for i := 0; i < n; i++ {
+			if finished[i] {
 				continue
 			}
 			r, ok := <-chans[i]
 			if !ok {
-				done[i] = true
+				finished[i] = true
 				open--
 				continue
 			}
@@ -519,38 +801,55 @@ func runJobs(c *corr.Ctx, nWorkers int, jobs []job) {
 		}
 	}
 	wg.Wait()
+	for _, nt := range notes {
+		c.Note(nt)
+	}
 }
 
 // Run is the domain driver.
 func Run(c *corr.Ctx) {
-	c.Rule("real gortsplib.Server on loopback TCP (UDP / multicast offered per configuration), handlers scripted per request; " +
+	if spec := os.Getenv(childEnv); spec != "" {
+		runChild(c, spec)
+		return
+	}
+	c.Rule("real gortsplib.Server on loopback TCP in child processes (UDP / multicast offered per configuration), handlers scripted per request; " +
 		"after every request: status, CSeq, Session header, interleaved channel, connection closed?, open connections, " +
 		"ServerSession.State()/Medias()/Transport() of every live session, OnSessionOpen/OnSessionClose counts == Lean model; " +
-		"property oracle: one response per request with the same CSeq, state == RFC 2326 table, illegal => error + unchanged, " +
-		"session closed exactly once and only for a listed reason, liveness watchdog")
+		"property oracle: one response per request with the same CSeq, State() == RFC 2326 table after every request, illegal => error + unchanged, " +
+		"unknown Session header => refused, session closed exactly once and only for a listed reason, liveness watchdog, a dying server process " +
+		"is attributed to its request sequence; timing on an injected clock (both tiers) and on real scaled-down timers (thorough)")
 
 	// the RFC table of the Go oracle == Spec/Rfc2326.lean
 	ops, impl := rfcOps()
 	c.Add(corr.Case{Name: "rfc-table", Ops: ops, Impl: impl, Nontrivial: true})
+	if c.Replay == nil {
+		c.Exhaustive()
+	}
+	runParent(c)
+}
 
+// buildJobs lists the work, identically in the parent's and in every child's view (it draws from
+// c.Rng in a fixed order).
+func buildJobs(c *corr.Ctx) []job {
 	if c.Replay != nil {
 		var cs Case
 		if err := json.Unmarshal(c.Replay, &cs); err != nil {
-			c.Note("replay: " + err.Error())
-			return
+			return []job{func(_ *worker, out func(caseResult)) {
+				out(caseResult{name: "replay", dist: map[string]int{}, err: fmt.Errorf("replay input not understood: %v", err)})
+			}}
 		}
-		w := &worker{rng: c.Rng, ctx: c, instances: map[Cfg]*instance{}}
-		emit(c, w.runCase(cs.Cfg, "replay", scripted(cs.Ops)))
-		w.closeAll()
-		return
-	}
-
-	nWorkers := runtime.NumCPU() / 2
-	if nWorkers < 2 {
-		nWorkers = 2
-	}
-	if nWorkers > 8 {
-		nWorkers = 8
+		return []job{func(w *worker, out func(caseResult)) {
+			switch {
+			case cs.Clock != nil:
+				out(w.attributed("clock:"+cs.Clock.Name, &Case{Clock: cs.Clock}, func() caseResult { return runClockScenario(*cs.Clock) }))
+			case cs.Timing != "":
+				if sc, ok := timingScenarioByName(c, cs.Timing); ok {
+					out(w.attributed("timing:"+sc.name, &Case{Timing: sc.name}, func() caseResult { return timingCase(sc) }))
+				}
+			default:
+				out(w.runCase(cs.Cfg, "replay", scripted(cs.Ops)))
+			}
+		}}
 	}
 	var jobs []job
 
@@ -700,8 +999,6 @@ func Run(c *corr.Ctx) {
 	addExhaustive(Cfg{Mask: 255, UDP: false, NMedias: 2}, alpha, 2, "exh-noudp")
 	addExhaustive(Cfg{Mask: 255, UDP: true, Mcast: true, NMedias: 2}, alphabetMcast(), 3, "exh-mcast")
 	addExhaustive(fullCfg, alphabetTCP(), 4, "exh-tcp")
-	c.Exhaustive()
-
 	// random conversations up to 12 requests, over several configurations
 	cfgs := configs(c, c.Rng)
 	nRandom := c.N(1000, 100000)
@@ -722,10 +1019,35 @@ func Run(c *corr.Ctx) {
 			}
 		})
 	}
-	runJobs(c, nWorkers, jobs)
-
-	// timing clauses on real (scaled-down) timers: thorough tier only
-	if !c.Quick() || os.Getenv("VERIF_SESS_TIMING") != "" {
-		runTiming(c)
+	// timing clauses on an injected clock: no real waiting, both tiers
+	for _, sc := range clockScenarios() {
+		sc := sc
+		jobs = append(jobs, func(w *worker, out func(caseResult)) {
+			out(w.attributed("clock:"+sc.Name, &Case{Clock: &sc}, func() caseResult { return runClockScenario(sc) }))
+		})
 	}
+
+	// … and on real (scaled-down) timers: thorough tier only
+	if !c.Quick() || os.Getenv("VERIF_SESS_TIMING") != "" {
+		for _, sc := range timingScenarios(c) {
+			sc := sc
+			jobs = append(jobs, func(w *worker, out func(caseResult)) {
+				out(w.attributed("timing:"+sc.name, &Case{Timing: sc.name}, func() caseResult { return timingCase(sc) }))
+			})
+		}
+	}
+	return jobs
+}
+
+// attributed runs a property-oracle-only case; the parent is told what is running, so that a dying
+// server is attributed to it.
+func (w *worker) attributed(name string, cs *Case, run func() caseResult) caseResult {
+	if w.skipLeft > 0 {
+		w.skipLeft--
+		return caseResult{name: name, dist: map[string]int{}, skipped: true, resumed: true}
+	}
+	if w.progress != nil {
+		w.progress("begin", wireBegin{Name: name, Case: cs})
+	}
+	return run()
 }
